@@ -38,9 +38,12 @@ def gen_case(rng):
     c = g(rng)
     if g is c19.gen_case:
         c = ["history", None, c19.project(c[2])]
-    if g is c13.gen_case:
-        return c
-    return c[:3]
+    if g is not c13.gen_case:
+        c = c[:3]
+    # bytes, not only values: the same documents written twice as JSON and once pretty, results held to the end
+    if c[2] and c[2][-1][0] == "out":
+        c[2] = c[2] + [["outfmt", "json"], ["outfmt", "json-pretty"], ["outfmt", "json"], ["outfmt", "yaml"]]
+    return c
 
 
 def env_of(c):
@@ -109,10 +112,28 @@ def run(ctx):
         conc_bin = os.path.join(race_dir, "verifh")
     else:
         conc_bin = os.path.join(ctx.bindir, "verifh")
-    conc_cases = [["concurrent", c[1], c[2], gor] for c in cases]
+    # groups of 8 different histories run at once, each from several goroutines; histories that need an
+    # environment run alone (the environment is process-wide)
     env = {"PATH": os.environ.get("PATH", ""), "HOME": ctx.work, "TMPDIR": ctx.work, "GORACE": "halt_on_error=1"}
-    imc = core.run_stream(conc_bin, conc_cases, timeout=3000, env=env)
-    mo = ctx.model([c[:3] for c in cases])
+    groups, cur = [], []
+    for i, c in enumerate(cases):
+        if env_of(c):
+            groups.append([i])
+        else:
+            cur.append(i)
+            if len(cur) == 8:
+                groups.append(cur)
+                cur = []
+    if cur:
+        groups.append(cur)
+    per = max(2, gor // 8)
+    conc_cases = [["concurrent", cases[g[0]][1], [cases[i][2] for i in g], per if len(g) > 1 else gor] for g in groups]
+    gres = core.run_stream(conc_bin, conc_cases, timeout=3000, env=env)
+    imc = [None] * len(cases)
+    for g, r in zip(groups, gres):
+        for j, i in enumerate(g):
+            imc[i] = r[j] if isinstance(r, list) and r and r[0] not in ("crash", "panic") and j < len(r) else r
+    mo = ctx.model([["history", c[1], [o for o in c[2] if o[0] != "outfmt"]] for c in cases])
     seen, nt, dist = set(), 0, {"race_build": ctx.tier == "thorough", "goroutines": gor}
     for i, c in enumerate(cases):
         runs = im1[i * reps:(i + 1) * reps] + [im2[i], im3[i]]
@@ -122,7 +143,13 @@ def run(ctx):
         else:
             runs = [norm_run(r) for r in runs + list(conc)]
             why = None
-            for r in runs[1:]:
+            # within one run: the two Output("json") calls on the same state must return the same bytes
+            r0 = runs[0]
+            if isinstance(r0, list):
+                js = [x[1] for o, x in zip(c[2], r0) if o[0] == "outfmt" and o[1] == "json" and isinstance(x, list) and len(x) == 2]
+                if len(js) == 2 and not veq(js[0], js[1]):
+                    why = "Output(json) called twice on the same state returned different bytes: %s vs %s" % (hist.short(js[0]), hist.short(js[1]))
+            for r in (runs[1:] if why is None else []):
                 if not veq(r, runs[0]):
                     why = "two runs of the same input differ: %s vs %s" % (hist.short(runs[0]), hist.short(r))
                     break
@@ -130,7 +157,8 @@ def run(ctx):
             mm = norm_run(mo[i])
             if isinstance(mm, list):
                 mm = [[x[0], ["err", "*"]] if (isinstance(x, list) and len(x) == 2 and isinstance(x[1], list) and x[1][:1] == ["err"]) else x for x in mm]
-            if isinstance(runs[0], list) and isinstance(mm, list) and not veq(runs[0][:len(mm)], mm):
+            r0v = [x for o, x in zip(c[2], runs[0]) if o[0] != "outfmt"] if isinstance(runs[0], list) else runs[0]
+            if isinstance(r0v, list) and isinstance(mm, list) and not veq(r0v[:len(mm)], mm):
                 why = "implementation differs from the (deterministic) model: %s vs %s" % (hist.short(runs[0]), hist.short(mm))
         h = core.vhash(c[2])
         reaches_out = isinstance(mo[i], list) and any(x[0] == "out" for x in mo[i])
